@@ -468,8 +468,12 @@ def fam_blocks():
     for x in singles:
         yield D(x)
         yield D(("Quote", [x]))
-        if x[0] not in ("Indent", "Hr"):
+        if x[0] not in ("Hr",):
             yield D(("Bullet", False, b"-", [("Item", None, [x, pa])]))
+        if x[0] == "Indent":
+            yield D(("Ordered", True, 1, False, [("Item", None, [x])]))
+            yield D(("Bullet", True, b"*", [("Item", None, [x]), ("Item", None, [pa])]))
+            yield D(("Quote", [("Ordered", False, 7, True, [("Item", None, [x, pa])])]))
     for x in singles:
         for y in singles:
             yield D(x, y)
